@@ -46,6 +46,10 @@ def main():
             res[n] = {"rc": int(m.group(1)) if m else rc2, "tail": out[-600:]}
         log[tag] = res
         return res
+    scaffold = os.path.join(src, "scaffold.diff")
+    if os.path.exists(scaffold):
+        rc, out = sh("git apply --whitespace=nowarn %s" % scaffold, cwd=WT)
+        assert rc == 0, "scaffold does not apply: " + out
     clean = run_demos("clean_tree")
     ok_clean = all(v["rc"] == 0 for v in clean.values())
     rc, out = sh("git apply --whitespace=nowarn %s" % os.path.join(src, "patch.diff"), cwd=WT)
@@ -67,6 +71,8 @@ def main():
     shutil.copy(os.path.join(src, "patch.diff"), dst)
     for d in demos:
         shutil.copy(os.path.join(src, d), dst)
+    if os.path.exists(scaffold):
+        shutil.copy(scaffold, dst)
     if os.path.exists(os.path.join(src, "notes.md")):
         shutil.copy(os.path.join(src, "notes.md"), dst)
     notes = open(os.path.join(src, "notes.md")).read() if os.path.exists(os.path.join(src, "notes.md")) else ""
